@@ -893,7 +893,7 @@ def codec_cases(draw, tier):
             case["lower"] = 1
         return case
     if kind == "addr":
-        k = draw(st.integers(1, 30))
+        k = draw(st.sampled_from([0, 0, 1, 1, 2]) | st.integers(1, 30))  # an addr message may carry no entry at all
         explicit = []
         for _ in range(k):
             explicit.append([
@@ -904,7 +904,7 @@ def codec_cases(draw, tier):
             ])
         extra = 0
         if draw(st.integers(0, 5)) == 0:
-            extra = draw(st.sampled_from([252, 253, 254, 1000])) - k
+            extra = max(0, draw(st.sampled_from([252, 253, 254, 1000])) - k)
         return {"codec": "addr", "explicit": explicit, "seed": seed, "extra": extra}
     nonce = draw(st.one_of(st.sampled_from([0, 1, 255, 256, 2**32 - 1, 2**32, 2**63, 2**64 - 1]), st.integers(0, 2**64 - 1)))
     return {"codec": "ping", "nonce": nonce}
@@ -965,7 +965,7 @@ def targets(tier):
             budget={"quick": 5000, "thorough": 100000},
             required=[
                 "nt:version-relay-false", "version-relay-true", "nt:version-user-agent-emptied", "nt:version-user-agent-len>=253", "nt:version-user-agent-len<253", "nt:getheaders-count>=253",
-                "nt:getheaders-count>=65536", "nt:getheaders-count-0", "nt:inv-count>=253", "nt:inv-all-six-types", "nt:addr-count>=253",
+                "nt:getheaders-count>=65536", "nt:getheaders-count-0", "nt:inv-count>=253", "nt:inv-count-0", "nt:inv-all-six-types", "nt:addr-count>=253", "nt:addr-count-0",
                 "nt:ping-nonce-boundary-or-8-byte", "codec-version", "codec-getheaders", "codec-inv", "codec-addr", "codec-ping",
             ],
         ),
